@@ -45,6 +45,9 @@ def observe_pairs(rep, rng, tier):
     ]
     physics = [
         dict(A=0.3, cur=1.5, adaptive=True, screening=False, T=0.25),
+        # generous dt_max: the adaptive proposal is not clipped, so the step history (and anything it may wrongly depend
+        # on, such as the save interval) shows in the trajectory
+        dict(A=0.6, cur=3.0, adaptive=True, screening=False, T=0.6, dt_max=0.5),
         dict(A=0.5, cur=0.0, adaptive=False, screening=False, T=0.1),
     ]
     if tier == "thorough":
@@ -57,7 +60,7 @@ def observe_pairs(rep, rng, tier):
                 dev = base_dev.copy(with_mesh=True)
                 dev.probe_points = None
             with tempfile.TemporaryDirectory(prefix="pyt_c11_") as td:
-                kw = dict(solve_time=ph["T"], dt_init=2e-3, dt_max=2e-2 if ph["adaptive"] else 2e-3, adaptive=ph["adaptive"],
+                kw = dict(solve_time=ph["T"], dt_init=2e-3, dt_max=ph.get("dt_max", 2e-2) if ph["adaptive"] else 2e-3, adaptive=ph["adaptive"],
                           save_every=var["save_every"], include_screening=ph["screening"], screening_tolerance=1e-2)
                 if "progress_interval" in var:
                     kw["progress_interval"] = var["progress_interval"]
